@@ -84,7 +84,9 @@ ASSUME AllFfiSafe
 
 CONSTANT Mode   \* "full" | "pairs": every receiver x (every argument with an i64 return + every return with an i64 argument)
 Selected == IF Mode = "full" THEN {d \in Defs : Valid(d)}
-            ELSE {d \in Defs : Valid(d) /\ (d.arg = "i64" \/ d.ret = "i64" \/ (d.arg = "none" /\ d.recv = "ref"))}
+            ELSE {d \in Defs : Valid(d) /\ (\/ d.arg = "i64" \/ d.ret = "i64" \/ (d.arg = "none" /\ d.recv = "ref")
+                                             \* every argument shape also on a method that uses integer result codes
+                                             \/ (d.ir /\ d.ret = "result" /\ d.recv \in {"ref", "mut"}))}
 
 VARIABLE todo
 Init == todo = Selected
